@@ -405,8 +405,12 @@ def run_cases(ctx, driver, mod, cases):
     """impl -> model requests -> judge, batching all model requests into one driver run."""
     reqs, spans, observed = [], [], []
     kept = []
+    cur = os.path.join(REPLAY_DIR, f".current-{ctx.prop}.json")
+    os.makedirs(REPLAY_DIR, exist_ok=True)
     for c in cases:
         try:
+            with open(cur, "w") as f:     # so that an interpreter crash still has its failing input
+                json.dump(c, f, default=repr)
             o = mod.impl(c)
         except Exception as e:  # the observation itself blew up on the real code: a concrete failing input
             import traceback
